@@ -334,8 +334,14 @@ def check(run, case):
     if 'pdu-trailing-bytes-ignored' in regs or 'fc15-quantity-vs-bytecount' in regs:
         excuse |= {'store-change-from-nonconformant-pdu'}
     left = set(kinds) - excuse
+    used = {'twisted-udp-dead': {'probe-unanswered'}, 'twisted-listen-only-is-permanent': {'probe-unanswered'},
+            'tcp-length-inconsistent-with-pdu': {'unjustified-store-change-after-tcp-desync'},
+            'ascii-bad-lrc-blocks-forever': {'probe-unanswered-after-ascii-span'},
+            'pdu-trailing-bytes-ignored': {'store-change-from-nonconformant-pdu'}, 'fc15-quantity-vs-bytecount': {'store-change-from-nonconformant-pdu'}}
     if not left:
         for slug in sorted(regs):
+            if not (used.get(slug, set()) & set(kinds)):
+                continue
             run.known(slug, {'twisted-udp-dead': 'Twisted UDP protocol raises TypeError on every datagram: it never serves anybody',
                              'twisted-listen-only-is-permanent': 'a force-listen-only request silences the Twisted front-end for every later connection',
                              'tcp-length-inconsistent-with-pdu': 'after an MBAP frame whose length disagrees with its PDU the TCP framer executes requests decoded from mis-aligned bytes',
